@@ -303,6 +303,20 @@ class SeriesSchema(ArraySchema[pd.Series]):
             raise series_errors
         return cast(pd.Series, validated_obj)
 
+    @strategy_import_error
+    def strategy(self, *, size=None):
+        """Create a ``hypothesis`` strategy for generating a Series.
+
+        :param size: number of elements to generate
+        :returns: a strategy that generates pandas Series objects.
+        """
+        from pandera import strategies as st
+
+        strategy = super().strategy(size=size)
+        if self.index is not None:
+            strategy = st.set_pandas_index(strategy, self.index)
+        return strategy
+
     def example(self, size=None) -> pd.Series:
         """Generate an example of a particular size.
 
